@@ -467,8 +467,8 @@ Section PanInterp.
   Proof.
     unfold custom_handler.
     assert (H : PAN (
-                 t0 <- get_ts ;;
                  c <- cleanup LF crun ;;
+                 t0 <- get_ts ;;
                  match c, r with
                  | Some e, Err (XInvalid m) => _ <- (if internal_msg m then mark_dirty else ret tt) ;; throw e
                  | Some e, _ => throw e
@@ -476,17 +476,18 @@ Section PanInterp.
                  | None, Err (XInvalid m) => match failed t0 with Some _ => throw (XInvalid m) | None => ret None end
                  | None, Err e => throw e
                  end)).
-    { apply pan_bind; [apply pan_get_ts|intros t0]. apply pan_after_cleanup.
-      - intros c. destruct c as [e|]; destruct r as [v|e']; pa; destruct e'; pa; try (destruct (internal_msg m); pa); destruct (failed t0); pa.
-      - intros e s He. destruct r as [v|[m|m st|m st|]]; try exact He.
+    { apply pan_after_cleanup.
+      - intros c. apply pan_bind; [apply pan_get_ts|intros t0].
+        destruct c as [e|]; destruct r as [v|e']; pa; destruct e'; pa; try (destruct (internal_msg m); pa); destruct (failed t0); pa.
+      - intros e s He. unfold bind at 1. cbn [get_ts res post]. destruct r as [v|[m|m st|m st|]]; try exact He.
         unfold bind. destruct (internal_msg m); cbn; exact He. }
     destruct r as [v|[]]; try exact H. apply pan_throw.
   Qed.
   Lemma bad_custom_handler r s : bad_res r -> bad_res (res (custom_handler LF crun r s)).
   Proof.
     intros Hr. unfold custom_handler. destruct r as [v|[m|m st|m st|]]; try destruct Hr; try exact I.
-    - unfold bind at 1. cbn [get_ts res post]. apply bad_after_cleanup. intros c s0 Hc. destruct c; [exact (Hc _ eq_refl)|exact I].
-    - unfold bind at 1. cbn [get_ts res post]. apply bad_after_cleanup. intros c s0 Hc. destruct c; [exact (Hc _ eq_refl)|exact I].
+    - apply bad_after_cleanup. intros c s0 Hc. unfold bind at 1. cbn [get_ts res post]. destruct c; [exact (Hc _ eq_refl)|exact I].
+    - apply bad_after_cleanup. intros c s0 Hc. unfold bind at 1. cbn [get_ts res post]. destruct c; [exact (Hc _ eq_refl)|exact I].
   Qed.
 
   Lemma pan_custom_att (body : M val) : PAN body -> PAN (custom_att LF crun body).
